@@ -88,6 +88,7 @@ deriving DecidableEq, Repr, Inhabited, Hashable
 structure Prom where
   winner : Option Nat := none          -- the call whose swap found `false`
   res : Option (Nat × Err) := none     -- published result (fields written, done channel closed)
+  born : Bool := false                 -- constructed pre-resolved (`NewPromiseWithErr`): `isDone` set, no setter
 deriving DecidableEq, Repr, Inhabited, Hashable
 
 structure St where
@@ -99,6 +100,9 @@ deriving DecidableEq, Repr, Hashable
 
 inductive Obs where
   | newp (p : Nat)                               -- `env newp p`
+  | newpe (p : Nat) (e : Err)                    -- `env newpe p e`    (NewPromiseWithErr(e): born resolved with (zero, e))
+  | checkLike (good ok : Bool)                   -- `env checklike plain|cont|bad1|bad2|bad3 ok|fail`: promise.CheckPromiseLike
+                                                 -- on a real implementation (good) / on a deliberately wrong fake returned nil (ok) / an error
   | invSet (t p v : Nat) (e : Err)               -- `inv t set p v e`
   | retSet (t : Nat) (b : Bool)                  -- `ret t set true|false`
   | invAwait (t p : Nat) (k : AK)                -- `inv t await p ctx|errch|cancelch`
@@ -116,6 +120,8 @@ deriving DecidableEq, Repr, Hashable
 
 inductive Ev where
   | newp (p : Nat)
+  | newpe (p : Nat) (e : Err)
+  | checkLike (good ok : Bool)
   | invSet (t p v : Nat) (e : Err)
   | swap (t : Nat)
   | publish (t : Nat)
@@ -141,6 +147,8 @@ deriving DecidableEq, Repr, Hashable
 
 def Ev.obs : Ev → Option Obs
   | .newp p => some (.newp p)
+  | .newpe p e => some (.newpe p e)
+  | .checkLike c ok => some (.checkLike c ok)
   | .invSet t p v e => some (.invSet t p v e)
   | .retSet t b => some (.retSet t b)
   | .invAwait t p k => some (.invAwait t p k)
@@ -158,6 +166,8 @@ def Ev.obs : Ev → Option Obs
 /-- the events that could have produced an observable (a panic is never produced by the model) -/
 def Obs.evs : Obs → List Ev
   | .newp p => [.newp p]
+  | .newpe p e => [.newpe p e]
+  | .checkLike c ok => [.checkLike c ok]
   | .invSet t p v e => [.invSet t p v e]
   | .retSet t b => [.retSet t b]
   | .invAwait t p k => [.invAwait t p k]
@@ -212,6 +222,12 @@ def published (s : St) : PRef → Option (Nat × Err)
     | none => none
   | .fixed t e => some (t + 1, e)
 
+/-- plain promise `p` exists and was not constructed pre-resolved -/
+def notBorn (s : St) (p : Nat) : Bool :=
+  match s.proms[p]? with
+  | some pr => !pr.born
+  | none => false
+
 def setTs (s : St) (t : Nat) (th : Th) (ts : TS) : St :=
   { s with th := s.th.set t { th with ts := ts } }
 
@@ -237,6 +253,14 @@ def quiescent (s : St) : Bool := s.th.all (Th.quiet s)
 
 def step (s : St) : Ev → Option St
   | .newp p => if p = s.proms.length then some { s with proms := s.proms ++ [{}] } else none
+  | .newpe p e =>
+    -- promise.go:40-43 via :28-37: result fields set, done channel closed, isDone stored, before anybody sees it
+    if p = s.proms.length then some { s with proms := s.proms ++ [{ res := some (0, e), born := true }] } else none
+  | .checkLike good ok =>
+    -- like.go:28-56 runs its own fixed script on private instances: on an implementation that does what
+    -- this model says it returns nil; on the harness' deliberately wrong fakes (await ignoring the
+    -- context / returning an error / returning another value) it returns an error
+    if ok = good then some s else none
   | .invSet t p v e =>
     if t = s.th.length ∧ p < s.proms.length ∧ v = t + 1 then
       some { s with th := s.th ++ [{ ts := .setInv p v e }] } else none
@@ -245,7 +269,7 @@ def step (s : St) : Ev → Option St
     | some th => match th.ts with
       | .setInv p v e => match s.proms[p]? with
         | some pr =>
-          if pr.winner.isSome then some (setTs s t th (.setRet p v e false))
+          if pr.winner.isSome || pr.born then some (setTs s t th (.setRet p v e false))
           else some { setTs s t th (.setWon p v e) with proms := s.proms.set p { pr with winner := some t } }
         | none => none
       | _ => none
@@ -296,7 +320,8 @@ def step (s : St) : Ev → Option St
     | some th => if th.ch.isNone then some { s with th := s.th.set t { th with ch := some f } } else none
     | none => none
   | .invCSetP t p =>
-    if t = s.th.length ∧ (p.all (· < s.proms.length)) = true then
+    -- (scope: promises born resolved are not put into the container)
+    if t = s.th.length ∧ (p.all fun p => notBorn s p) = true then
       some { s with th := s.th ++ [{ ts := .cWInv (.setp p) }] } else none
   | .cWCS t =>
     match s.th[t]? with
@@ -411,6 +436,12 @@ def parseNats : List String → Option (List Nat)
 
 def Obs.parse : List String → Option Obs
   | ["env", "newp", p] => do pure (.newp (← p.toNat?))
+  | ["env", "newpe", p, e] => do pure (.newpe (← p.toNat?) (← Err.parse e))
+  | ["env", "checklike", impl, r] => do
+    let good ← (if impl = "plain" ∨ impl = "cont" then some true
+                else if impl = "bad1" ∨ impl = "bad2" ∨ impl = "bad3" then some false else none)
+    let ok ← (if r = "ok" then some true else if r = "fail" then some false else none)
+    pure (.checkLike good ok)
   | ["inv", t, "set", p, v, e] => do pure (.invSet (← t.toNat?) (← p.toNat?) (← v.toNat?) (← Err.parse e))
   | ["ret", t, "set", "true"] => do pure (.retSet (← t.toNat?) true)
   | ["ret", t, "set", "false"] => do pure (.retSet (← t.toNat?) false)
